@@ -69,7 +69,7 @@ def run(ctx):
     del g
     # rounds 0..2 of the same configuration (the Byzantine validator proposes in round 2): simulation
     mcs2 = cc.net_mc(ctx, "C01_small_sim", info, byz, 2, lazy=False, view=False)
-    nb2 = 40 if quick else 3000
+    nb2 = 40 if quick else 800
     rS2 = ctx.tlc(mcs2, mcs2 + ".cfg", simulate="file=%s,num=%d" % (os.path.join(ctx.spec_copy(), "behA"), nb2),
                   depth=80, seed=ctx.seed, workers=1, timeout=1500, label="C01_small_sim")
     if rS2.violations or rS2.errors:
@@ -94,7 +94,7 @@ def run(ctx):
     inp = {"mode": "replay", "dups": 5, "powers": powers, "byz": byz, "maxround": 9, "scheds": scheds, "random": 0}
     rows, stats = cc.run_driver(ctx, binp, inp, "A")
     inp2 = {"mode": "replay", "dups": 5, "powers": powers, "byz": byz, "maxround": 9, "scheds": sims, "synctail": True, "byzafter": True,
-            "random": 30 if quick else 1500, "randlen": 150}
+            "random": 30 if quick else 400, "randlen": 150}
     rows2, stats2 = cc.run_driver(ctx, binp, inp2, "A2")
     off = max([r["run"] for r in rows] + [0])
     for r in rows2:
@@ -136,7 +136,7 @@ def run(ctx):
         info3 = cc.run_driver(ctx, binp, {"mode": "info", "powers": powers, "byz": [], "maxround": 14}, "info" + tag)
         byz3 = [info3["names"][bi]]
         mcs = cc.net_mc(ctx, "C01_sim_" + tag, info3, byz3, mr3, lazy=False, view=False)
-        nb = 30 if quick else 3000
+        nb = 30 if quick else 500
         pref = "beh" + tag
         rS = ctx.tlc(mcs, mcs + ".cfg", simulate="file=%s,num=%d" % (os.path.join(ctx.spec_copy(), pref), nb),
                      depth=70, seed=ctx.seed, workers=1, timeout=1500, label="C01_sim_" + tag)
@@ -149,7 +149,7 @@ def run(ctx):
         for k, a in enumerate(attacks):
             scheds.append({"id": 100000 + k, "steps": a["steps"]})
         inp = {"mode": "replay", "dups": 5, "powers": powers, "byz": byz3, "maxround": 9, "scheds": scheds, "synctail": True, "byzafter": True,
-               "random": 25 if quick else 1500, "randlen": 200}
+               "random": 25 if quick else 400, "randlen": 200}
         rows, stats = cc.run_driver(ctx, binp, inp, tag)
         v = cc.validate(ctx, rows, info3, byz3, 9, tag, dedupe=True)
         account(v, rows, label)
